@@ -10,6 +10,7 @@ import (
 	sdkmath "cosmossdk.io/math"
 
 	"github.com/EscanBE/evermint/v12/utils"
+	authtypes "github.com/cosmos/cosmos-sdk/x/auth/types"
 	govtypes "github.com/cosmos/cosmos-sdk/x/gov/types"
 	"github.com/ethereum/go-ethereum/common"
 	ethtypes "github.com/ethereum/go-ethereum/core/types"
@@ -67,9 +68,20 @@ func (k *Keeper) EthereumTx(goCtx context.Context, msg *evmtypes.MsgEthereumTx) 
 		labels = append(labels, telemetry.NewLabel("execution", "call"))
 	}
 
+	senderPaidTxFeeInAnteHandle := k.IsSenderPaidTxFeeInAnteHandle(ctx)
+
 	response, err := k.ApplyTransaction(ctx, ethTx)
 	if err != nil {
 		return nil, errorsmod.Wrap(err, "failed to apply transaction")
+	}
+
+	if senderPaidTxFeeInAnteHandle {
+		// The AnteHandle moved the fee for the whole gas limit from the sender to the fee collector,
+		// and the state transition refunded the fee of the unused gas to the sender by minting it.
+		// So the refunded amount must be taken out of the fee collector, otherwise the total supply inflates.
+		if err := k.burnRefundedTxFeeFromFeeCollector(ctx, ethTx, response.GasUsed); err != nil {
+			return nil, errorsmod.Wrap(err, "failed to take back the refunded fee from fee collector")
+		}
 	}
 
 	defer func() {
@@ -146,6 +158,26 @@ func (k *Keeper) EthereumTx(goCtx context.Context, msg *evmtypes.MsgEthereumTx) 
 	})
 
 	return response, nil
+}
+
+// burnRefundedTxFeeFromFeeCollector burns, from the fee collector, the fee of the unused gas
+// which was refunded to the sender during state transition.
+func (k *Keeper) burnRefundedTxFeeFromFeeCollector(ctx sdk.Context, ethTx *ethtypes.Transaction, gasUsed uint64) error {
+	if gasUsed >= ethTx.Gas() {
+		return nil
+	}
+
+	effectiveGasPrice := evmutils.EthTxEffectiveGasPrice(ethTx, k.feeMarketKeeper.GetBaseFee(ctx))
+	refundedFee := new(big.Int).Mul(new(big.Int).SetUint64(ethTx.Gas()-gasUsed), effectiveGasPrice)
+	if refundedFee.Sign() < 1 {
+		return nil
+	}
+
+	refundedCoins := sdk.NewCoins(sdk.NewCoin(k.GetParams(ctx).EvmDenom, sdkmath.NewIntFromBigInt(refundedFee)))
+	if err := k.bankKeeper.SendCoinsFromModuleToModule(ctx, authtypes.FeeCollectorName, evmtypes.ModuleName, refundedCoins); err != nil {
+		return err
+	}
+	return k.bankKeeper.BurnCoins(ctx, evmtypes.ModuleName, refundedCoins)
 }
 
 // UpdateParams implements the gRPC MsgServer interface. When an UpdateParams
